@@ -515,8 +515,20 @@ func (fc *fileCtx) passYCall(call *ast.CallExpr, depth int, fn string) {
 			try = "TryRLock"
 		}
 		xs := fc.text(sel.X)
+		fn := "Lock("
+		if strings.HasPrefix(kind, "sync.RWMutex") {
+			// the simulator models writer preference per RWMutex: pass its identity
+			key := "&(" + xs + ")"
+			if isPointer(fc.pkg.TypesInfo.TypeOf(sel.X)) {
+				key = "(" + xs + ")"
+			}
+			fn = "LockW(" + key + ", "
+			if try == "TryRLock" {
+				fn = "LockR(" + key + ", "
+			}
+		}
 		// simrt.Lock(X.TryLock, X.Lock, site)
-		fc.insert(sel.X.Pos(), simName+".Lock(", 10+depth)
+		fc.insert(sel.X.Pos(), simName+"."+fn, 10+depth)
 		fc.replace(sel.Sel.Pos(), call.Rparen+1, try+", ("+xs+")."+sel.Sel.Name+", "+q(site)+")")
 		record("lock", site, fn)
 	case strings.HasSuffix(kind, "Unlock"):
